@@ -27,6 +27,7 @@ import (
 	"io"
 	"math"
 	"os"
+	"sort"
 	"strconv"
 	"strings"
 	"time"
@@ -142,6 +143,40 @@ func (o ops[T]) catalogue() []string {
 		out = append(out, fmt.Sprintf("%s #%d %s", o.name, i, o.show(f())))
 	}
 	return out
+}
+
+// type-tagged text of the dynamic values inside map[string]any (%#v prints int 1 and float64 1 alike)
+func anyRepr(v any) string {
+	switch x := v.(type) {
+	case map[string]any:
+		if x == nil {
+			return "map(nil)"
+		}
+		keys := make([]string, 0, len(x))
+		for k := range x {
+			keys = append(keys, k)
+		}
+		sort.Strings(keys)
+		var sb strings.Builder
+		sb.WriteString("map{")
+		for _, k := range keys {
+			sb.WriteString(strconv.Quote(k) + ":" + anyRepr(x[k]) + ",")
+		}
+		sb.WriteString("}")
+		return sb.String()
+	case []any:
+		if x == nil {
+			return "slice(nil)"
+		}
+		var sb strings.Builder
+		sb.WriteString("slice[")
+		for _, e := range x {
+			sb.WriteString(anyRepr(e) + ",")
+		}
+		sb.WriteString("]")
+		return sb.String()
+	}
+	return fmt.Sprintf("%T(%#v)", v, v)
 }
 
 func repr[T any](v T) string { return hex.EncodeToString([]byte(fmt.Sprintf("%#v", v))) }
@@ -392,12 +427,21 @@ var table = map[string]tyOps{
 	"json:stru":   jsOps("json:stru", catStru),
 	"json:map":    jsOps("json:map", catMap),
 	"json:slice":  jsOps("json:slice", catSlice),
-	"json:mapany": jsOps("json:mapany", catMapAny),
+	"json:mapany": ops[map[string]any]{name: "json:mapany", cat: catMapAny, isJS: true,
+		show:  func(v map[string]any) string { return hex.EncodeToString([]byte(anyRepr(v))) },
+		parse: func(string) map[string]any { panic("catalogue only") }},
 	"json:unexp":  jsOps("json:unexp", catUnexp),
 	"json:nan":    jsOps("json:nan", catNaN),
 	"json:myint":  jsOps("json:myint", catMyInt),
 	"json:nested": jsOps("json:nested", catNested),
-	"json:chan":   jsOps("json:chan", catChan),
+	"json:chan": ops[chan int]{name: "json:chan", cat: catChan, isJS: true, // %#v of a channel is an address: canonicalise
+		show: func(v chan int) string {
+			if v == nil {
+				return hex.EncodeToString([]byte("chan(nil)"))
+			}
+			return hex.EncodeToString([]byte("chan(non-nil)"))
+		},
+		parse: func(string) chan int { panic("catalogue only") }},
 }
 
 func splitTV(s string) (tyOps, string) {
